@@ -54,6 +54,7 @@ PARAMS = {
     ":target_height": "P_target_height", ":target_value": "P_target_value",
     ":chain_tip": "P_chain_tip", ":owner": "P_owner",
     ":min_confirmations": "P_min_confirmations", ":coinbase_filter": "P_coinbase_filter",
+    ":has_address_allow_list": "P_has_allow_list",
 }
 LPARAMS = {":exclude": "L_exclude", ":overridable_owners": "L_overridable_owners", ":addresses": "L_addresses"}
 CMPS = {"=": "CEq", "==": "CEq", "!=": "CNe", "<>": "CNe", "<": "CLt", "<=": "CLe", ">": "CGt", ">=": "CGe"}
@@ -496,6 +497,45 @@ def gen_sql():
     utxo_pol = utxo_where(txt.replace("rn.", "u."))
     utxo_unf = utxo_where("1")
 
+    # select_spendable_transparent_outputs: same query body, account/allow-list address predicate,
+    # ORDER BY [tier,] value DESC, output_index; Rust-side accumulation
+    bsel = fn_body(tr, "select_spendable_transparent_outputs", TR)
+    mm = re.search(r'spendable_transparent_outputs_query\(\s*"(accounts\.uuid = :account_uuid.*?)",\s*&output_eligible_condition\(lock_filter, "u"\),\s*&order_by_sql,', bsel, flags=re.S)
+    if not mm:
+        raise SrcgenError("select_spendable_transparent_outputs: address/account predicate not found")
+    acct_pred = mm.group(1)
+    if 'format!("{expr} {direction}, u.value_zat DESC, u.output_index")' not in bsel or \
+       'None => "u.value_zat DESC, u.output_index".to_string()' not in bsel:
+        raise SrcgenError("select_spendable_transparent_outputs: ORDER BY changed")
+    for need in ["if utxos.len() >= max_inputs {", "accumulated_value.saturating_sub(u64::from(cumulative_fee)) >= target",
+                 "[InputSize::Known(cumulative_input_size)]", "let has_address_allow_list = address_allow_list.is_some();"]:
+        if need not in bsel:
+            raise SrcgenError("select_spendable_transparent_outputs: accumulation loop changed (%r)" % need)
+    if not re.search(r"allow_zero_conf_shielding\(\)\s*\{\s*0u32\s*\}\s*else\s*\{\s*u32::from\(confirmations_policy\.untrusted\(\)\)", bsel):
+        raise SrcgenError("select_spendable_transparent_outputs: min_confirmations rule changed")
+
+    def gather_where(lock_sql):
+        parts = wq.split("({})")
+        w = ("(" + acct_pred + ")" + parts[0] + "(" + f_minconf + ")" + parts[1]
+             + "(@SPENT@)" + parts[2] + "(" + f_eph + ")" + parts[3] + "(" + f_cb + ")" + parts[4])
+        w = w.replace("({lock_eligible_sql})", "(" + lock_sql + ")").replace("{foreign_scope}", str(foreign_scope))
+        return parse_sql(w, "select_spendable_transparent_outputs WHERE")
+
+    gather_pol = gather_where(txt.replace("rn.", "u."))
+    gather_unf = gather_where("1")
+    # the propose_transaction passes: which lock policy each transparent gather uses
+    isel = srcgen.read("zcash_client_backend/src/data_api/wallet/input_selection.rs")
+    k = isel.find("impl<DbT: InputSource> InputSelector for GreedyInputSelector<DbT>")
+    if k < 0:
+        raise SrcgenError("GreedyInputSelector InputSelector impl not found")
+    bpt = fn_body(isel[k:], "propose_transaction", "input_selection.rs")
+    if len(re.findall(r"LockFilter::Policy\(spend_policy\.locked_input_policy\(\)\)", bpt)) != 3 or \
+       "self.locked_input_policy" in bpt:
+        raise SrcgenError("propose_transaction: the lock policy passed to the selection calls changed")
+    bgt = fn_body(isel, "gather_transparent", "input_selection.rs")
+    if "LockFilter::Policy(locked_input_policy)," not in bgt or "spend_policy.locked_input_policy()," not in bpt:
+        raise SrcgenError("gather_transparent: lock policy argument changed")
+
     out = ["From Coq Require Import ZArith.", "From V.C08 Require Import Sql.", "Local Open Scope Z_scope.", ""]
     out.append("Definition DEFAULT_TX_EXPIRY_DELTA : Z := %d." % delta)
     out.append("Definition MARGINAL_FEE : Z := %d." % marginal)
@@ -520,6 +560,9 @@ def gen_sql():
     out.append("(* WHERE of spendable_transparent_outputs_query as used by get_spendable_transparent_outputs_for_addresses *)")
     out.append("Definition utxo_where_policy : expr :=\n  %s." % utxo_pol)
     out.append("Definition utxo_where_unfiltered : expr :=\n  %s." % utxo_unf)
+    out.append("(* WHERE of select_spendable_transparent_outputs *)")
+    out.append("Definition utxo_gather_where_policy : expr :=\n  %s." % gather_pol)
+    out.append("Definition utxo_gather_where_unfiltered : expr :=\n  %s." % gather_unf)
     out.append("Definition EPHEMERAL_KEY_SCOPE : Z := %d." % eph_scope)
     out.append("Definition COINBASE_MATURITY_BLOCKS : Z := %d." % maturity)
     out.append("(* shielding_max_inputs(DEFAULT_SHIELDING_BLOCK_SPACE_PERCENT) *)")
@@ -533,10 +576,10 @@ class C08(Config):
     corr_targets = ["C08/Corr.vo", "C08/Wf.vo"]
     audit_dirs = ["Lib", "Gen", "C08"]
     header = ("From V.Lib Require Import Base.\n"
-              "From V.C08 Require Import Sql Model ModelT Spec Corr Wf.\n"
+              "From V.C08 Require Import Sql Model ModelT ModelP Spec Corr Wf.\n"
               "Local Open Scope Z_scope.")
     bin = "c08"
-    n_tags = 39
+    n_tags = 42
     classes = {}
     shard_size = 120
     rule = ("wallet histories on the real SQLite backend, half of them on a local network with NU6.3/Ironwood active and a 12-block ZIP 318 grid (receipts into 2 accounts x 3 shielded pools, canonical-denomination payments to Orchard receivers, external spends, "
@@ -556,7 +599,8 @@ class C08(Config):
         "canonical-crossing attempt: the ZIP 318 grid, NU6.3 activation height, anchor_computable(Orchard, boundary), the data source's anchor under the bucketed policy and the canonical fee are inputs reported by the wallet; theorems assume that anchor <= the boundary",
     ]
     partial_clauses = [
-        "transparent inputs are modelled for get_spendable_transparent_outputs_for_addresses and propose_shielding; gather_transparent inside propose_transfer (SpendPolicy::with_transparent, select_spendable_transparent_outputs), propose_shielding_coinbase and ZIP 320 multi-step proposals are not modelled",
+        "transparent inputs are modelled for get_spendable_transparent_outputs_for_addresses, propose_shielding and the gather / re-gather of propose_transfer under a TransparentSpendPolicy (non-coinbase outputs; the gather's own fee estimate is modelled as 5000*max(2,n) for P2PKH inputs; ORDER BY value ties are outside the model); propose_shielding_coinbase, CoinbasePolicy::OnlyCoinbase and ZIP 320 multi-step proposals are not modelled",
+        "greedy_terminates is proved without a transparent spend policy only (with one, the re-gather bound grows with the strategy's `required`, which is bounded by MAX_MONEY, not by the wallet)",
         "propose_send_max_transfer is covered only through select_spendable_notes(AllFunds) (select_unspent_notes)",
         "get_anchor_height / checkpoint tables are not modelled: the anchor is an input (the value the wallet reports)",
     ]
